@@ -109,6 +109,15 @@ def env_case(draw):
         params[0]["tag"] = True
         params.append({"path": [params[0]["path"][0], "untagged"], "type": "int", "shape": [], "val": 9, "unit": None, "tag": False})
         n = len(params)
+    preselect = draw(st.sampled_from([None, None, "query", "tags"]))
+    parse_pre = draw(st.booleans())
+    if preselect == "query" and parse_pre and select is None and len(params[0]["path"]) >= 2:
+        # a top-level parameter that is called like a child of the group selected (and exported) first: the query
+        # reports the child under that very name
+        leaf = params[0]["path"][-1]
+        if not any(p["path"] == [leaf] for p in params):
+            params.append({"path": [leaf], "type": "int", "shape": [], "val": 7, "unit": None, "tag": False})
+            n = len(params)
     scalars = [i for i, p in enumerate(params) if not p["shape"] and p["val"] is not None]
     define = draw(st.lists(st.sampled_from(scalars), max_size=2, unique=True)) if scalars else []
     const = draw(st.lists(st.sampled_from(range(n)), max_size=2, unique=True))
@@ -116,8 +125,8 @@ def env_case(draw):
             "define": define, "const": const,
             "select": select,
             "share_env": draw(st.sampled_from([True, True, False])), "rotate": draw(st.integers(0, 8)),
-            "preselect": draw(st.sampled_from([None, None, "query", "tags"])),
-            "other_option_first": draw(st.integers(0, 2)) == 0, "two_tags": draw(st.integers(0, 2)) == 0,
+            "preselect": preselect,
+            "other_option_first": draw(st.integers(0, 2)) == 0, "parse_preselection": parse_pre, "two_tags": draw(st.integers(0, 2)) == 0,
             "backends": draw(st.sampled_from([BACKENDS, BACKENDS, ["dip", "json", "yaml", "toml", "bash"], ["c", "cpp", "fortran", "rust"]]))}
 
 
@@ -712,6 +721,14 @@ def do_export(backend, env, case, ps_all):
             exp.select(tags=TAGS(case))
         elif pre == "query" and case["select"] != "query":
             exp.select(query=query_of(case))
+        else:
+            pre = None
+        if pre and case.get("parse_preselection"):
+            # the earlier selection was exported, too: what it produced must not show up in the export that counts
+            try:
+                exp.parse()
+            except Exception:
+                pass
         if case["select"] == "tags":
             exp.select(tags=TAGS(case))
         elif case["select"] == "query":
